@@ -16,6 +16,8 @@ STR_POOL = {
 EXTRAS = ["foo", "bar", "Foo_Bar", "baz"]
 PV = ["2.7", "3.6", "3.7", "3.8", "3.9", "3.10", "3.11", "3"]
 PFV = ["3.6", "3.7.0", "3.7.1", "3.8", "3.8.10", "3.10.0", "3.11.2", "2.7.18"]
+# operands with a pre/post/dev suffix (valid PEP 440; pre-release interpreters report e.g. 3.13.0a1)
+PFV_SUFFIX = ["3.9a1", "3.9.0rc1", "3.10.0b2", "3.8.post1", "3.9.dev0", "3.11a3", "3.7.0.post2"]
 REL = ["5.4.0", "5.10", "6", "4.19.1"]
 CMP = ["==", "!=", "<", "<=", ">", ">=", "~="]
 
@@ -53,6 +55,8 @@ def atom(rng: random.Random, reversed_ok=True) -> str:
         lit = rng.choice(PFV)
         if op in ("==", "!=") and rng.random() < 0.25:
             lit = rng.choice(["3.7.*", "3.*", "3.10.*"])
+        elif rng.random() < 0.15:
+            lit = rng.choice(PFV_SUFFIX)
         return _cmp("python_full_version", op, lit, rng, reversed_ok)
     if k < 0.87:
         op = rng.choice(["<", "<=", ">", ">=", "==", "!="])
@@ -115,7 +119,7 @@ def env_grid(texts, rng: random.Random, limit=48):
     pv_candidates = set()
     for l in lits:
         for part in re.split(r"[ ,]+", l):
-            m = re.fullmatch(r"(\d+)(?:\.(\d+))?(?:\.(\d+))?(?:\.\*)?", part)
+            m = re.match(r"(\d+)(?:\.(\d+))?(?:\.(\d+))?", part)
             if m:
                 X, Y, Z = int(m.group(1)), int(m.group(2) or 0), int(m.group(3) or 0)
                 for (x, y, z) in [(X, Y, Z), (X, Y, Z + 1), (X, Y, max(Z - 1, 0)), (X, Y + 1, 0), (X, max(Y - 1, 0), 9), (X + 1, 0, 0)]:
